@@ -72,7 +72,8 @@ fn base_raw() -> VerifRaw {
 
 /// Reference: [512][256] packed: selA + 8 selB + 64 selW + 512 constB + 2^17 alus
 ///   + 2^21 (busen, buswr, mrgwe, mchflg, maluia, maluib, mac0..3 as bits 21..30)
-pub fn decode_check(path: &str) {
+pub fn decode_check(path: &str, mac_only: bool) {
+    let mask: u64 = if mac_only { 0xF << 27 } else { u64::MAX };
     let r = load_json(path);
     let tab = r.as_array().expect("array");
     let mut m = fresh();
@@ -107,7 +108,8 @@ pub fn decode_check(path: &str) {
                 + (1 << 28) * s.mac1() as u64
                 + (1 << 29) * s.mac2() as u64
                 + (1 << 30) * s.mac3() as u64;
-            let exp = row[ir].as_u64().unwrap();
+            let exp = row[ir].as_u64().unwrap() & mask;
+            let got = got & mask;
             rows += 1;
             if got != exp {
                 mism += 1;
@@ -124,7 +126,7 @@ pub fn decode_check(path: &str) {
 /// (word >> 19) & 0xFF = MAC2..0 NA4..0 plus MAC3 dropped; input index =
 /// ir*512 + f*32 + ac*16 + az*8 + an*4 + pei*2 + pli  (f = FR low 4 bits C,Z,N,IE).
 /// Every one of the 512 x 2^17 combinations is forced onto the real machine.
-pub fn nextaddr_check(path: &str) {
+pub fn nextaddr_check(path: &str, sets_only: bool) {
     let r = load_json(path);
     let classes: Vec<u64> = r["classes"].as_array().unwrap().iter().map(|x| x.as_u64().unwrap()).collect();
     let table = r["table"].as_array().unwrap();
@@ -150,6 +152,8 @@ pub fn nextaddr_check(path: &str) {
         };
         let row = &rows_of[ci];
         for ir in 0..256usize {
+            let mut impl_set = [false; 512];
+            let mut spec_set = [false; 512];
             for rest in 0..512usize {
                 let f = (rest >> 5) & 15;
                 raw.maddr = maddr;
@@ -167,7 +171,10 @@ pub fn nextaddr_check(path: &str) {
                 let got = s.next_microprogram_address() as u32 + 512 * s.interrupt_logic_1() as u32;
                 let exp = row[ir * 512 + rest];
                 rows += 1;
-                if got != exp {
+                if sets_only {
+                    impl_set[(got & 511) as usize] = true;
+                    spec_set[(exp & 511) as usize] = true;
+                } else if got != exp {
                     mism += 1;
                     if first.len() < 20 {
                         first.push(json!({"maddr": maddr, "ir": ir, "f": f, "ac": raw.alu_carry, "az": raw.alu_zero,
@@ -176,7 +183,64 @@ pub fn nextaddr_check(path: &str) {
                     }
                 }
             }
+            if sets_only && impl_set[..] != spec_set[..] {
+                mism += 1;
+                if first.len() < 20 {
+                    let a: Vec<usize> = (0..512).filter(|i| impl_set[*i]).collect();
+                    let b: Vec<usize> = (0..512).filter(|i| spec_set[*i]).collect();
+                    first.push(json!({"maddr": maddr, "ir": ir, "impl_successors": a, "spec_successors": b}));
+                }
+            }
         }
     }
     println!("{}", json!({"rows": rows, "mismatches": mism, "missing_class": missing_class, "first": first}));
+}
+
+/// MUL / DIV loop termination on the real machine for all 65 536 operand pairs x carry-in
+/// (registers R0 = rd, R1 = rs) and all 256 x carry for rd = rs.  Prints the maximal edge count.
+pub fn muldiv_term() {
+    use crate::scenario::bytecode_of;
+    let mut out = vec![];
+    for (name, base) in [("MUL", 0xB0u8), ("DIV", 0xC0u8)].iter() {
+        let mut max_edges: u64 = 0;
+        let mut runs: u64 = 0;
+        let mut nonterm: Vec<Value> = vec![];
+        for same in [false, true].iter() {
+            let op = if *same { *base } else { *base | (1 << 2) }; // rs = R0 (same) or R1, rd = R0
+            let mut tmpl = fresh();
+            tmpl.load(bytecode_of(&[op, 0x01], 16, -1));
+            for a in 0..=255u8 {
+                for b in 0..=255u8 {
+                    if *same && b != a {
+                        continue;
+                    }
+                    for cin in 0..2u8 {
+                        let mut m = tmpl.clone();
+                        m.raw_mut().registers_mut().set(RegisterNumber::R0, a);
+                        if !*same {
+                            m.raw_mut().registers_mut().set(RegisterNumber::R1, b);
+                        }
+                        m.raw_mut().registers_mut().set(RegisterNumber::R4, cin);
+                        let mut n: u64 = 0;
+                        while m.state() == State::Running && n < 20000 {
+                            m.raw_mut().trigger_clock_edge();
+                            n += 1;
+                        }
+                        runs += 1;
+                        if m.state() != State::Stopped {
+                            if nonterm.len() < 5 {
+                                nonterm.push(json!({"op": name, "a": a, "b": b, "cin": cin, "edges": n,
+                                    "state": crate::proj::state_name(m.state())}));
+                            }
+                        }
+                        if n > max_edges {
+                            max_edges = n;
+                        }
+                    }
+                }
+            }
+        }
+        out.push(json!({"op": name, "runs": runs, "max_edges": max_edges, "nonterminating": nonterm}));
+    }
+    println!("{}", json!(out));
 }
